@@ -130,6 +130,11 @@ def envelope_pairs():
     p.append(("BDS50", "TAS>600kt", CF.bds50(gs=(1, 0, 250), tas=(1, 0, 300)), CF.bds50(gs=(1, 0, 250), tas=(1, 0, 301))))
     p.append(("BDS50", "|TAS-GS|>200kt", CF.bds50(gs=(1, 0, 100), tas=(1, 0, 200)), CF.bds50(gs=(1, 0, 100), tas=(1, 0, 201))))
     p.append(("BDS50", "|GS-TAS|>200kt", CF.bds50(gs=(1, 0, 200), tas=(1, 0, 100)), CF.bds50(gs=(1, 0, 201), tas=(1, 0, 100))))
+    # the two-field relation at its limit for EVERY pair that sits exactly on it (the verdict must not depend on how the
+    # difference rounds): |TAS - GS| = 200 kt inside, 202 kt outside, both directions
+    for g in range(0, 201):
+        p.append(("BDS50", "|TAS-GS|>200kt at GS raw %d" % g, CF.bds50(gs=(1, 0, g), tas=(1, 0, g + 100)), CF.bds50(gs=(1, 0, g), tas=(1, 0, g + 101)) if g + 101 <= 300 else CF.bds50(gs=(1, 0, 100), tas=(1, 0, 201))))
+        p.append(("BDS50", "|GS-TAS|>200kt at TAS raw %d" % g, CF.bds50(gs=(1, 0, g + 100), tas=(1, 0, g)), CF.bds50(gs=(1, 0, g + 101), tas=(1, 0, g)) if g + 101 <= 300 else CF.bds50(gs=(1, 0, 201), tas=(1, 0, 100))))
     p.append(("BDS60", "IAS>500kt", CF.bds60(ias=(1, 0, 500), mach=(0, 0, 0)), CF.bds60(ias=(1, 0, 501), mach=(0, 0, 0))))
     p.append(("BDS60", "Mach>1", CF.bds60(ias=(0, 0, 0), mach=(1, 0, 250)), CF.bds60(ias=(0, 0, 0), mach=(1, 0, 251))))
     p.append(("BDS60", "VRbaro>6000", CF.bds60(vrb=(1, 0, 187)), CF.bds60(vrb=(1, 0, 188))))
